@@ -137,6 +137,7 @@ type State struct {
 	nEvents int
 	callCounts map[string]int
 	meta   map[string]Val
+	seenRefs []Term // references observed so far on this path (a later allocation differs from all of them)
 }
 
 func (s *State) clone() *State {
@@ -153,6 +154,7 @@ func (s *State) clone() *State {
 		n.frames = append(n.frames, f.clone())
 	}
 	n.trace = s.trace[:len(s.trace):len(s.trace)]
+	n.seenRefs = s.seenRefs[:len(s.seenRefs):len(s.seenRefs)]
 	n.callCounts = make(map[string]int, len(s.callCounts))
 	for k, v := range s.callCounts {
 		n.callCounts[k] = v
@@ -203,6 +205,36 @@ type Obligation struct {
 	Trace  []string
 	Pos    string
 	Note   string
+}
+
+// ProblemQF is Problem without the quantified assumptions (the goal is kept as it is). Fewer
+// assumptions: an `unsat` answer carries over to the full problem; a `sat` answer is only a
+// candidate counterexample.
+func (o *Obligation) ProblemQF(pre string, wantModel bool) (string, bool) {
+	dropped := false
+	var b strings.Builder
+	b.WriteString("; obligation " + o.Name + " at " + o.Pos + " (quantified assumptions dropped)\n")
+	b.WriteString("(set-option :produce-models true)\n(set-logic ALL)\n")
+	for _, line := range strings.Split(pre, "\n") {
+		if strings.HasPrefix(line, "(assert ") && (strings.Contains(line, "(forall ") || strings.Contains(line, "(exists ")) {
+			dropped = true
+			continue
+		}
+		b.WriteString(line)
+		b.WriteByte('\n')
+	}
+	for _, f := range o.Facts {
+		if strings.Contains(f.S, "(forall ") || strings.Contains(f.S, "(exists ") {
+			dropped = true
+			continue
+		}
+		b.WriteString("(assert " + f.S + ")\n")
+	}
+	b.WriteString("(assert (not " + o.Goal.S + "))\n(check-sat)\n")
+	if wantModel {
+		b.WriteString("(get-model)\n")
+	}
+	return b.String(), dropped
 }
 
 func (o *Obligation) Problem(pre string, wantModel bool) string {
